@@ -233,32 +233,42 @@ func (fe *forgeEnv) eval(tape []byte, legitHdr map[string]bool, legitContent map
 			data []byte
 			err  error
 		}
-		ch := make(chan rd, 1)
-		go func() {
-			defer func() {
-				if x := recover(); x != nil {
-					ch <- rd{nil, fmt.Errorf("PANIC %v", x)}
-				}
-			}()
-			r2 := &runner{h: fe.h, in: in2, ks: fe.ks, dir: sub}
-			d, err := r2.readAll(in2.s, n)
-			ch <- rd{d, err}
-		}()
-		select {
-		case x := <-ch:
-			if x.err != nil {
-				if strings.HasPrefix(x.err.Error(), "PANIC") {
-					badc = append(badc, map[string]interface{}{"name": row.Name, "via": "fs", "read": x.err.Error()})
-				}
-				continue
+		// three readers: a large buffer, a buffer of exactly the indexed size (the end is seen only by the next Read), half of it
+		chunks := []int{32 * 1024}
+		if row.Size > 0 && row.Size <= 1<<20 {
+			chunks = append(chunks, int(row.Size))
+			if row.Size%2 == 0 {
+				chunks = append(chunks, int(row.Size/2))
 			}
-			sum := sha256.Sum256(x.data)
-			sh := hex.EncodeToString(sum[:8])
-			if !legitContent[n][sh] {
-				badc = append(badc, map[string]interface{}{"name": row.Name, "via": "fs", "len": len(x.data), "sha": sh})
+		}
+		for _, chunk := range chunks {
+			ch := make(chan rd, 1)
+			go func(chunk int) {
+				defer func() {
+					if x := recover(); x != nil {
+						ch <- rd{nil, fmt.Errorf("PANIC %v", x)}
+					}
+				}()
+				r2 := &runner{h: fe.h, in: in2, ks: fe.ks, dir: sub}
+				d, err := r2.readAllChunk(in2.s, n, chunk)
+				ch <- rd{d, err}
+			}(chunk)
+			select {
+			case x := <-ch:
+				if x.err != nil {
+					if strings.HasPrefix(x.err.Error(), "PANIC") {
+						badc = append(badc, map[string]interface{}{"name": row.Name, "via": "fs", "chunk": chunk, "read": x.err.Error()})
+					}
+					continue
+				}
+				sum := sha256.Sum256(x.data)
+				sh := hex.EncodeToString(sum[:8])
+				if !legitContent[n][sh] {
+					badc = append(badc, map[string]interface{}{"name": row.Name, "via": "fs", "chunk": chunk, "len": len(x.data), "sha": sh})
+				}
+			case <-time.After(8 * time.Second):
+				badc = append(badc, map[string]interface{}{"name": row.Name, "via": "fs", "chunk": chunk, "read": "HANG"})
 			}
-		case <-time.After(8 * time.Second):
-			badc = append(badc, map[string]interface{}{"name": row.Name, "via": "fs", "read": "HANG"})
 		}
 	}
 	if len(badc) > 0 {
